@@ -144,7 +144,11 @@ Fixpoint table2 (tbl : list (N * N * N)) (k n : N) : N :=
   | (n', k', v) :: t => if (n' =? n) && (k' =? k) then v else table2 t k n
   end.
 
-Definition mk_config_gen (fixed : bool) (r : router) (prio : bool) (htbl : list (N * N * N)) (ctbl : list (N * N)) : config :=
+Definition mk_config_gen2 (f4 f8 : bool) (r : router) (prio : bool) (htbl : list (N * N * N)) (ctbl : list (N * N)) : config :=
   mkCfg r prio (table2 htbl) (fun k _ => table_fun ctbl (fun k => k) k)
-        (fun k => k mod 5) (fun k => negb (k mod 7 =? 6)) fixed.
-Definition mk_config := mk_config_gen true.
+        (fun k => k mod 5) (fun k => negb (k mod 7 =? 6)) f4 f8.
+Definition mk_config_gen (fixed : bool) := mk_config_gen2 fixed false.
+(* the rules of the tree as it stands *)
+Definition mk_config := mk_config_gen2 true false.
+(* with the candidate F8 fix (docs/notes/F8.patch) *)
+Definition mk_config_f8 := mk_config_gen2 true true.
